@@ -110,7 +110,7 @@ def obligations(tier):
         Ob(name="K1-directory-and-file-list-equal-union", engine="pathex", harness=h_union,
            functions=["Orchestrator.lint_files/lint_directory/lint_file", "_collect_files_fast", "every per-file rule's check()"],
            bounds="forked: every subset of 8 of the %d project files as an explicit list, the rest always included (membership bits are solver booleans enumerated by forking), the directory, the directory non-recursively" % (len(FILES) + 1),
-           timeout=900, workers=14, must_cover=("nonempty", "empty")),
+           timeout=900, workers=14, must_cover=("nonempty",)),
         Ob(name="K1b-cli-equals-library", engine="pathex", harness=h_cli_vs_api,
            functions=["every linter command (in-process CLI)", "Linter.lint/_lint_path/_filter_violations", "each command's _run_*_lint filter"],
            bounds="forked: every linter command except file-placement x 6 targets (directory, sub-directory, 4 single files incl. one half of a cross-file duplicate)",
